@@ -102,4 +102,100 @@ theorem readLine_spec (b : Buf) (h : WF b) (hs : 16 ≤ b.size) (line rest : Byt
     WF (b.readLine fuel) ∧ (b.readLine fuel).pending = rest ∧ Same b (b.readLine fuel) := by
   first | exact LineLaw.readLine_spec .. | (apply LineLaw.readLine_spec <;> assumption)
 
+/-! ### non-vacuity -/
+section NonVacuity
+set_option linter.defProp false
+open WS.SrcLaw WS.LineLaw
+
+/-- bytes a client glued to its upgrade request, left in the hijacked bufio.Reader: a masked text
+    frame "Hello" (RFC 6455 §5.7) -/
+def witHij : Bytes := [0x81, 0x85, 0x37, 0xfa, 0x21, 0x3d, 0x7f, 0x9f, 0x4d, 0x51, 0x58]
+
+/-- non-vacuity of `brnetconn_stream`: 11 buffered bytes, reads of 2, 4 and 8 bytes -/
+example : let (out, b') := serve ⟨some witHij⟩ [1, 3, 7]
+    out ++ (b'.buffered.getD []) = witHij ∧ (b'.buffered = none ∨ ∃ r, b'.buffered = some r ∧ r ≠ []) :=
+  brnetconn_stream witHij (by decide) [1, 3, 7]
+/-- non-vacuity of `brnetconn_stream`: reads that stop inside the buffer (2 and 4 bytes of 11) -/
+example : let (out, b') := serve ⟨some witHij⟩ [1, 3]
+    out ++ (b'.buffered.getD []) = witHij ∧ (b'.buffered = none ∨ ∃ r, b'.buffered = some r ∧ r ≠ []) :=
+  brnetconn_stream witHij (by decide) [1, 3]
+/-- concrete values for the `brnetconn_stream` witness -/
+example : serve ⟨some witHij⟩ [1, 3] = ([0x81, 0x85, 0x37, 0xfa, 0x21, 0x3d], ⟨some [0x7f, 0x9f, 0x4d, 0x51, 0x58]⟩) := rfl
+
+/-- non-vacuity of `brnetconn_no_overread`: a 4-byte Read (frame header peek) from the 11 buffered bytes -/
+example : ([0x81, 0x85, 0x37, 0xfa] : Bytes).length ≤ 4 ∧ ([0x81, 0x85, 0x37, 0xfa] : Bytes).length ≤ witHij.length :=
+  brnetconn_no_overread witHij 4 [0x81, 0x85, 0x37, 0xfa] ⟨some [0x21, 0x3d, 0x7f, 0x9f, 0x4d, 0x51, 0x58]⟩ rfl
+/-- non-vacuity of `brnetconn_no_overread`: a 4096-byte Read gets only the 11 buffered bytes -/
+example : witHij.length ≤ 4096 ∧ witHij.length ≤ witHij.length :=
+  brnetconn_no_overread witHij 4096 witHij ⟨none⟩ rfl
+
+/-- instance of `upgrade_reader_choice` (no hypotheses): ReadBufferSize 0, hijacked reader of 4096
+    bytes with 11 bytes buffered: reuse, no wrap -/
+example : ((0 : Int) == 0 && 4096 > 256) = true ∧ (!((0 : Int) == 0 && 4096 > 256) && 11 > 0) = false := by decide
+
+/-- the header lines of the RFC 6455 sample 101 response, each without its "\n" (the last one is the
+    empty line "\r\n") -/
+def witLines : List Bytes :=
+  [/- 'HTTP/1.1 101 Switching Protocols\r' -/
+   [72, 84, 84, 80, 47, 49, 46, 49, 32, 49, 48, 49, 32, 83, 119, 105, 116, 99, 104, 105, 110, 103, 32,
+    80, 114, 111, 116, 111, 99, 111, 108, 115, 13],
+   /- 'Upgrade: websocket\r' -/
+   [85, 112, 103, 114, 97, 100, 101, 58, 32, 119, 101, 98, 115, 111, 99, 107, 101, 116, 13],
+   /- 'Connection: Upgrade\r' -/
+   [67, 111, 110, 110, 101, 99, 116, 105, 111, 110, 58, 32, 85, 112, 103, 114, 97, 100, 101, 13],
+   /- 'Sec-WebSocket-Accept: s3pPLMBiTxaQ9kYGzzhZRbK+xOo=\r' -/
+   [83, 101, 99, 45, 87, 101, 98, 83, 111, 99, 107, 101, 116, 45, 65, 99, 99, 101, 112, 116, 58, 32,
+    115, 51, 112, 80, 76, 77, 66, 105, 84, 120, 97, 81, 57, 107, 89, 71, 122, 122, 104, 90, 82, 98, 75,
+    43, 120, 79, 111, 61, 13],
+   /- '\r' -/
+   [13]]
+/-- the first bytes of the first frame (unmasked text "Hello", truncated), glued to the handshake -/
+def witRest : Bytes := [129, 5, 72, 101, 108]
+/-- the transport delivers the 134 bytes in four chunks: cut inside the status line, inside the
+    Sec-WebSocket-Accept line, and before its "\\r\\n"; the last chunk carries the end of the
+    block together with the frame bytes -/
+def witChunks : List Bytes :=
+  [[72, 84, 84, 80, 47, 49, 46, 49, 32, 49, 48, 49, 32, 83, 119, 105, 116, 99, 104, 105],
+   [110, 103, 32, 80, 114, 111, 116, 111, 99, 111, 108, 115, 13, 10, 85, 112, 103, 114, 97, 100, 101,
+    58, 32, 119, 101, 98, 115, 111, 99, 107, 101, 116, 13, 10, 67, 111, 110, 110, 101, 99, 116, 105,
+    111, 110, 58, 32, 85, 112, 103, 114, 97, 100, 101, 13, 10, 83, 101, 99, 45, 87],
+   [101, 98, 83, 111, 99, 107, 101, 116, 45, 65, 99, 99, 101, 112, 116, 58, 32, 115, 51, 112, 80, 76,
+    77, 66, 105, 84, 120, 97, 81, 57, 107, 89, 71, 122, 122, 104, 90, 82, 98, 75, 43, 120, 79, 111, 61],
+   [13, 10, 13, 10, 129, 5, 72, 101, 108]]
+
+/-- the client connection's own bufio.Reader (4096 bytes) on top of that transport -/
+def witBuf : Buf := { size := 4096, t := { chunks := witChunks }, total := 134 }
+/-- the same transport under the smallest buffer the theorems allow (16 bytes: every header line but
+    the last is longer than the buffer) -/
+def witBuf16 : Buf := { size := 16, t := { chunks := witChunks }, total := 134 }
+
+/-- witness for `client_header_block_consumed_exactly`: no header line contains a newline -/
+def witLines_nl : ∀ l ∈ witLines, (10 : UInt8) ∉ l := by decide
+/-- witness for `client_header_block_consumed_exactly` / `readLine_spec` -/
+def witBuf_wf : WF witBuf := ⟨by decide, by decide, by decide, fun e h => nomatch h⟩
+def witBuf16_wf : WF witBuf16 := ⟨by decide, by decide, by decide, fun e h => nomatch h⟩
+def witBuf_block : witBuf.pending = block witLines witRest := by decide +kernel
+def witBuf16_block : witBuf16.pending = block witLines witRest := by decide +kernel
+
+/-- non-vacuity of `client_header_block_consumed_exactly`: 4096-byte reader, five header lines split
+    over four transport chunks, frame bytes glued to the last one -/
+example : let b' := witLines.foldl (fun b _ => b.readLine (2 * b.total + 2)) witBuf
+    WF b' ∧ b'.pending = witRest ∧ Same witBuf b' ∧ b'.total = witBuf.total :=
+  client_header_block_consumed_exactly witLines witLines_nl witBuf witBuf_wf (by decide) (by decide +kernel)
+    witRest witBuf_block
+/-- non-vacuity of `client_header_block_consumed_exactly`: the same with a 16-byte reader -/
+example : let b' := witLines.foldl (fun b _ => b.readLine (2 * b.total + 2)) witBuf16
+    WF b' ∧ b'.pending = witRest ∧ Same witBuf16 b' ∧ b'.total = witBuf16.total :=
+  client_header_block_consumed_exactly witLines witLines_nl witBuf16 witBuf16_wf (by decide) (by decide +kernel)
+    witRest witBuf16_block
+
+/-- non-vacuity of `readLine_spec`: the status line of the 101 response is read from `witBuf`; what
+    stays pending is the rest of the block and the frame bytes -/
+example : WF (witBuf.readLine 270) ∧ (witBuf.readLine 270).pending = block witLines.tail witRest ∧
+    Same witBuf (witBuf.readLine 270) :=
+  readLine_spec witBuf witBuf_wf (by decide) (witLines.headD []) (block witLines.tail witRest) (by decide)
+    (by decide +kernel) 270 (by decide +kernel)
+
+end NonVacuity
+
 end WS.Props.C17
